@@ -11,8 +11,10 @@
    * WAL failure (also BatchTooLarge): oracle.rollback; set_failure(e); mark_applied; drop the mutex;
      publish(); then `complete_rx.await` — commit() WAITS for its queue entry to be dequeued, holding
      its permit, exactly like a successful commit.
-   * apply (outside the mutex): MemTable::add inserts the entries one by one; an error after k
-     entries leaves those k in the memtable.  Apply failure: oracle.rollback;
+   * apply (outside the mutex): MemTable::add reserves the batch's exact arena footprint first and returns
+     ArenaFull before inserting anything; the rotation / relog errors of LsmCommitEnv::apply happen before the
+     retry's add: a failed apply leaves NO entry of the batch (ATOMIC = true).  The old add inserted entry by
+     entry: an error after k entries left those k in the memtable (ATOMIC = false, regression record).  Apply failure: oracle.rollback;
      set_failure(CommitFail); then the common tail.
    * common tail (success and apply failure): mark_applied; publish(); await the completion.
    * publish(): dequeue applied entries from the tail while the oldest is applied; for each one
@@ -48,12 +50,16 @@ Inductive label :=
 | LEnqueue (i cnt : nat)
 | LWalFail (i : nat)
 | LApplyOk (i : nat)
-| LApplyFail (i k : nat)               (* apply fails after inserting k < count entries *)
+| LApplyFail (i k : nat)               (* apply fails after inserting k < count entries; k = 0 when ATOMIC *)
 | LFinish (i : nat).
 
 Section PipeFail.
 Variable SLOTS : nat.
 Variable PERMITS : nat.
+(* MemTable::add is all-or-nothing (since e6ce312: tower heights drawn first, exact arena footprint reserved before the
+   first insert, ArenaFull only BEFORE anything is inserted).  false = the old `add` (entry by entry, ArenaFull possible
+   after k inserts), kept as the regression record of C15-N5 *)
+Variable ATOMIC : bool.
 
 Definition p0 : pst :=
   {| p_free := PERMITS; p_q := []; p_ph := []; p_next := 1; p_visible := 0; p_mem := []; p_panic := false |}.
@@ -126,7 +132,7 @@ Definition pstep (s : pst) (l : label) : option pst :=
   | LApplyFail i k =>
     match ph_get i (p_ph s), q_find i (p_q s) with
     | PQueued, Some e =>
-      if k <? e_cnt e
+      if (k <? e_cnt e) && (negb ATOMIC || Nat.eqb k 0)
       then Some (applied_and_publish s i (p_mem s ++ seq_entries (e_seq e) k i) (PWait false))
       else None
     | _, _ => None
